@@ -189,8 +189,11 @@ func init() {
 			out = append(out, need(c, "stage2_early_exit_drains", 50)...)
 			out = append(out, need(c, "parses_that_filled_the_ring", 50)...)
 			out = append(out, need(c, "async_parses", 500)...)
-			if c["stall_budget_exhausted"] > 0 {
-				out = append(out, fmt.Sprintf("stall budget exhausted %d times: forced schedules were not reached", c["stall_budget_exhausted"]))
+			// a stall that runs out of its yield budget (a loaded machine) leaves that one hand-over
+			// to the natural schedule; the run is still judged. Only when that is common were the
+			// forced schedules not explored
+			if c["stall_budget_exhausted"]*100 > c["stalls_applied"] {
+				out = append(out, fmt.Sprintf("stall budget exhausted %d times in %d stalls: forced schedules were not reached", c["stall_budget_exhausted"], c["stalls_applied"]))
 			}
 			if len(s["schedule_signatures"]) < 100 {
 				out = append(out, fmt.Sprintf("only %d distinct schedule signatures", len(s["schedule_signatures"])))
